@@ -14,6 +14,9 @@
             hashed (the hash of a message is taken over its first component only)
     C04-04  `dispatch` indexes `assoc` only with characters below `assoc.size()`
             (a byte >= 0x80 in an address read in front of the vector)
+    C04-06  tables with a name that has a byte >= 127 are not hashed (`find_assoc` /
+            `do_hash` index the 127-entry `assoc` with the `char`: a write in front of
+            / behind the vector)
 
   The heuristic searches `find_pos` / `find_assoc` are modelled executably (`findPos`,
   `findAssoc`), but everything that is proved about dispatching is proved for an
@@ -39,7 +42,8 @@ def tupleOf (pos : List Nat) (s : Bytes) : List Nat :=
 /-- `do_hash(strs, pos, assoc)` for one string: `length + Σ assoc[s[p]]` over the p in
     `pos` with p < length.  A character that is no index of `assoc` contributes nothing:
     in `Ports::dispatch` that is the repaired code (C04-04); in `find_assoc`/`find_remap`
-    the code indexes unguardedly, which `matcherOf` accounts for (`keysInRange`). -/
+    the code indexes unguardedly, but since C04-06 only tables whose names have no byte
+    >= 127 get that far (`highByte`; the unrepaired code: `matcherOfUnfixed`, `keysInRange`). -/
 def hashStr (pos assoc : List Nat) (s : Bytes) : Nat :=
   s.length + (pos.filterMap (fun p => (s[p]?).bind (fun c => assoc[c.toNat]?))).sum
 
@@ -167,16 +171,21 @@ def innerSlash (name : Bytes) : Bool :=
   | _ :: c :: _ => c != 58
   | _ => false
 
+/-- C04-06: `for(const char *c = name; *c; ++c) if((unsigned char)*c >= 127)` — a byte that
+    is no index of the 127-entry `assoc` -/
+def highByte (name : Bytes) : Bool := name.any (· ≥ 127)
+
 /-- all characters of the keys are indices of the 127-entry `assoc` (as `char`: 0..126) -/
 def keysInRange (keys : List Bytes) : Bool := keys.all (·.all (· < 127))
 
 /-- `refreshMagic()`: a fresh `Port_Matcher`, `generate_minimal_hash(*this, *impl)`, then
-    `enump[i] = strchr(name_i,'#')`.  `none`: the construction itself indexes `assoc`
-    with a character ≥ 127 (undefined behaviour; only names, never messages, cause it). -/
+    `enump[i] = strchr(name_i,'#')`.  Total since C04-06: the construction indexes `assoc`
+    only with characters of names that passed the `highByte` guard.  (The `Option` is kept
+    for the table-construction functions the theorems quantify over.) -/
 def matcherOf (S : Search) (names : List Bytes) : Option Matcher :=
   let base : Matcher := { fixed := [], argSpec := [], pos := [], assoc := [], remap := [],
                           enump := names.map (hasChar 35) }
-  if names.any (fun n => hasChar 35 n || innerSlash n) then some base     -- `if(enump) return;`
+  if names.any (fun n => hasChar 35 n || innerSlash n || highByte n) then some base   -- `if(enump) return;`
   else
     let ks := names.map splitName
     let keys := ks.map (·.1)
@@ -185,7 +194,6 @@ def matcherOf (S : Search) (names : List Bytes) : Option Matcher :=
     else
       let pos := S.findPos keys
       if pos.isEmpty then some m1                                          -- "Failed to generate minimal hash"
-      else if !keysInRange keys then none
       else
         let assoc := S.findAssoc keys pos
         if countDups (keys.map (hashStr pos assoc)) ≠ 0 then
@@ -282,8 +290,9 @@ def lookupUnfixed (pm : Matcher) (m : Bytes) : Option Lookup :=
     | none => some .outside
     | some k => (hardMatchUnfixed pm k m).map (Lookup.slot k)
 
-/-- `refreshMagic` before C04-02 / C04-03: only '#' keeps a table from being hashed, and
-    what `find_assoc` returns is used unchecked -/
+/-- `refreshMagic` before C04-02 / C04-03 / C04-06: only '#' keeps a table from being hashed,
+    what `find_assoc` returns is used unchecked, and `none` = `find_assoc` indexes `assoc`
+    with a byte >= 127 of a name (a write outside the vector) -/
 def matcherOfUnfixed (S : Search) (names : List Bytes) : Option Matcher :=
   let base : Matcher := { fixed := [], argSpec := [], pos := [], assoc := [], remap := [],
                           enump := names.map (hasChar 35) }
